@@ -121,11 +121,21 @@ bsplinebasis(const double* knots, size_t nknots, const double* x, size_t npts, i
 	basis = cholmod_l_allocate_dense(npts, nsplines, npts, CHOLMOD_REAL, c);
 
 	/* CHOLMOD dense matrices are in column-major order */
+	/*
+	 * B-splines are defined on half-open intervals, which leaves a point on
+	 * the closing knot outside the support of every basis function, although
+	 * it belongs to the range of the table. Like the evaluation code, take
+	 * the limit from the left there.
+	 */
 	k = 0;
 	for (col = 0; col < nsplines; col++) 
-		for (row = 0; row < npts; row++, k++) 
-			((double *)(basis->x))[k] = bspline(knots, x[row],
+		for (row = 0; row < npts; row++, k++) {
+			double xr = x[row];
+			if (xr == knots[nknots-1] && knots[0] < knots[nknots-1])
+				xr = nextafter(xr, knots[0]);
+			((double *)(basis->x))[k] = bspline(knots, xr,
 			    col, order);
+		}
 
 	sbasis = cholmod_l_dense_to_sparse(basis, 1, c);
 	cholmod_l_free_dense(&basis, c);
